@@ -82,7 +82,7 @@ func baseProp(st sreg.Strat) engine.AnyProp {
 	return engine.Prop[Case]{
 		ID: "C05", Subject: st.Name,
 		Gen: func(t *rapid.T) Case {
-			c := Case{Cfg: st.GenConfig(t)}
+			c := Case{Cfg: st.GenConfigLoose(t)}
 			if st.Plain != nil && rapid.IntRange(0, 11).Draw(t, "plain") == 0 {
 				c.Plain = true
 			}
